@@ -32,8 +32,35 @@ RULE = ('values (built-in trees with escapes/bytes, commented trees, stdlib inst
 ASSUMPTIONS = ['colorful in forced 24-bit mode emits exactly the RGB of the style', 'the SGR decoder in vlib/sgr.py covers the sequences colorful emits (unknown parameters abort the case as a violation)']
 
 
-def all_styles():
+def synthetic_styles(n=8):
+    """pygments Style classes with seeded random attribute combinations per token (bold/italic/underline, fg, bg, fg+bg, nothing)"""
+    from pygments.style import Style
+    from pygments import token as T
     out = []
+    toks = [T.Keyword.Constant, T.Name.Builtin, T.Name.Entity, T.Name.Function, T.Name.Variable, T.String, T.String.Affix, T.String.Escape,
+            T.Number, T.Number.Bin, T.Number.Integer, T.Number.Float, T.Operator, T.Punctuation, T.Comment.Single, T.Comment, T.Name, T.Text]
+    for i in range(n):
+        rng = V.rng_for('c16style', i)
+        styles = {}
+        for t in toks:
+            parts = []
+            for flag in ('bold', 'italic', 'underline'):
+                if rng.random() < 0.35:
+                    parts.append(flag)
+            c = rng.random()
+            if c < 0.6:
+                parts.append('#%06x' % rng.randrange(1 << 24))
+            if rng.random() < 0.35:
+                parts.append('bg:#%06x' % rng.randrange(1 << 24))
+            if c > 0.9:
+                parts.append('#%03x' % rng.randrange(1 << 12))
+            styles[t] = ' '.join(parts)
+        out.append(('synthetic-%d' % i, type('Synthetic%d' % i, (Style,), {'styles': styles})))
+    return out
+
+
+def all_styles():
+    out = synthetic_styles()
     for name in sorted(pyg_styles.get_all_styles()):
         out.append((name, pyg_styles.get_style_by_name(name)))
     out.append(('GitHubLightStyle', pcolor.GitHubLightStyle))
